@@ -44,7 +44,15 @@ def gen_feature(rng, kind, n):
             nan_rate = 0
         elif r < 0.18:
             vals = [float(np.float32(v)) for v in vals]; extra = "float32"
-        if rng.random() < 0.08:
+        if rng.random() < 0.05:
+            # neighbouring doubles: boundaries that differ in the 16th-17th significant digit only
+            base = rng.choice([0.3, 1e10 / 3, 7e-5, 123456.789])
+            chain = [base]
+            for _ in range(5):
+                chain.append(float(np.nextafter(chain[-1], np.inf)))
+            vals = [rng.choice(chain) for _ in range(n)]
+            extra = "ulp"
+        elif rng.random() < 0.08:
             # boundaries that differ only beyond 4 significant digits
             base, step = rng.choice([(202300, 1), (1 / 1024, 2.0 ** -30), (5000000, 64)])
             vals = [base + step * rng.randint(1, 12) for _ in range(n)]
@@ -172,7 +180,9 @@ def gen_dataset(rng, target="binary", n=None, kinds=None, with_dev=None):
         X_dev["extra_col"] = list(range(m))
         y_dev = pd.Series(draw_y(dcols[f0]), index=X_dev.index, name="target")
     ds = dict(X=X, y=y, X_dev=X_dev, y_dev=y_dev, quantitative=quantitative, qualitative=qualitative,
-              ordinal=ordinal, values_orders=values_orders, target=target, kinds=kinds)
+              ordinal=ordinal, values_orders=values_orders, target=target, kinds=kinds,
+              # a*x+b is not exact on neighbouring doubles: no affine re-encoding there (C11 says "exactly representable")
+              no_affine=any(g[1] == "ulp" for g in gens.values()))
     ds["ok_target"] = _target_ok(ds)
     return ds
 
